@@ -10,5 +10,7 @@ for pid in "$@"; do
 done
 git -C /repo checkout -- . 
 git -C /repo status --short | grep -v '^??'
+# the printed sources are those of the restored tree again
+(cd /verif && python3 anchors/gen_anchors.py >/dev/null 2>&1)
 # rebuild the harness binaries from the restored tree so that nothing stale is left behind
 (cd /verif/harness && GOFLAGS=-mod=mod GOPROXY=off GOSUMDB=off GOTOOLCHAIN=local go build -tags verif -o bin/harness ./cmd/harness)
